@@ -74,8 +74,11 @@ func (p *Parser) parseShowStatement() (ast.Statement, error) {
 		// Optional FROM database
 		if p.isType(models.TokenTypeFrom) {
 			p.advance()
-			show.From = p.currentToken.Literal
-			p.advance()
+			// the database name, unless the statement ends here
+			if !p.isType(models.TokenTypeEOF) && !p.isType(models.TokenTypeSemicolon) {
+				show.From = p.currentToken.Literal
+				p.advance()
+			}
 		}
 	case "DATABASES":
 		show.ShowType = "DATABASES"
@@ -91,6 +94,9 @@ func (p *Parser) parseShowStatement() (ast.Statement, error) {
 			}
 			show.ObjectName = name
 		} else {
+			if p.isType(models.TokenTypeEOF) || p.isType(models.TokenTypeSemicolon) {
+				return nil, p.expectedError("object type after SHOW CREATE")
+			}
 			show.ShowType = "CREATE " + strings.ToUpper(p.currentToken.Literal)
 			p.advance()
 			name, err := p.parseQualifiedName()
